@@ -384,3 +384,89 @@ def falls_through(ctx: Ctx) -> List[Node]:
     cfg = ctx.cfg
     live = cfg.live_nodes()
     return [cfg.nodes[p] for p, lab in cfg.nodes[cfg.exit].pred if p in live and not isinstance(cfg.nodes[p].ast, ast.Return)]
+
+
+# ------------------------------------------------------------------------------------------------
+# local aliases: `w = self.weights`, `umin, umax = kv[0], kv[-1]` — a name with ONE definition whose right-hand side is a pure,
+# simple expression (name / attribute chain / constant subscript) stands for that expression in facts and guards
+def _pure_simple(e) -> bool:
+    if isinstance(e, (ast.Name, ast.Constant)):
+        return True
+    if isinstance(e, ast.Attribute):
+        return _pure_simple(e.value)
+    if isinstance(e, ast.Subscript):
+        sl = e.slice
+        if isinstance(sl, ast.UnaryOp):
+            sl = sl.operand
+        return isinstance(sl, ast.Constant) and _pure_simple(e.value)
+    return False
+
+
+def local_aliases(fnode: ast.FunctionDef) -> Dict[str, ast.expr]:
+    defs: Dict[str, list] = {}
+    params = {a.arg for a in fnode.args.args + fnode.args.posonlyargs + fnode.args.kwonlyargs}
+    for a in ast.walk(fnode):
+        if isinstance(a, ast.Assign):
+            for t in a.targets:
+                if isinstance(t, ast.Name):
+                    defs.setdefault(t.id, []).append(a.value)
+                elif isinstance(t, (ast.Tuple, ast.List)):
+                    if isinstance(a.value, (ast.Tuple, ast.List)) and len(a.value.elts) == len(t.elts):
+                        for tt, vv in zip(t.elts, a.value.elts):
+                            if isinstance(tt, ast.Name):
+                                defs.setdefault(tt.id, []).append(vv)
+                    else:
+                        for tt in ast.walk(t):
+                            if isinstance(tt, ast.Name):
+                                defs.setdefault(tt.id, []).append(None)
+        elif isinstance(a, (ast.AugAssign, ast.AnnAssign)) and isinstance(a.target, ast.Name):
+            defs.setdefault(a.target.id, []).append(None)
+        elif isinstance(a, (ast.For, ast.comprehension)):
+            for tt in ast.walk(a.target):
+                if isinstance(tt, ast.Name):
+                    defs.setdefault(tt.id, []).append(None)
+        elif isinstance(a, ast.NamedExpr) and isinstance(a.target, ast.Name):
+            defs.setdefault(a.target.id, []).append(None)
+    out = {}
+    for k, vs in defs.items():
+        if k in params or len(vs) != 1 or vs[0] is None or not _pure_simple(vs[0]) or isinstance(vs[0], ast.Constant):
+            continue
+        # the aliased expression must not mention a name that is itself reassigned — except a parameter normalised once by
+        # `p = Ctor(p)` textually before the alias is taken
+        bad = False
+        for x in ast.walk(vs[0]):
+            if not isinstance(x, ast.Name):
+                continue
+            ds = defs.get(x.id, [])
+            if x.id in params:
+                if len(ds) == 0:
+                    continue
+                if len(ds) == 1 and ds[0] is not None and any(isinstance(y, ast.Name) and y.id == x.id for y in ast.walk(ds[0])) and getattr(ds[0], "lineno", 10**9) < getattr(vs[0], "lineno", 0):
+                    continue
+                bad = True
+            elif len(ds) > 1:
+                bad = True
+        if bad:
+            continue
+        out[k] = vs[0]
+    return out
+
+
+class _Unalias(ast.NodeTransformer):
+    def __init__(self, al):
+        self.al = al
+
+    def visit_Name(self, n):
+        if isinstance(n.ctx, ast.Load) and n.id in self.al:
+            import copy as _c
+
+            return self.visit(_c.deepcopy(self.al[n.id]))
+        return n
+
+
+def unalias(e: ast.expr, al: Dict[str, ast.expr]) -> ast.expr:
+    import copy as _c
+
+    if not al:
+        return e
+    return _Unalias(al).visit(_c.deepcopy(e))
